@@ -8,7 +8,7 @@ from gen import B, M
 PID = 'C16'
 LEVEL = 'exploration'
 VARIANTS = {'quick': ['asan', 'plain'], 'thorough': ['asan', 'plain', 'asan-tdbg']}
-RULE = ('fac/2fac/mfac/primorial: n over 0..3000 (sampled in quick), around FAC_DSC_THRESHOLD and a ladder to 60k (2M thorough); mfac with '
+RULE = ('fac/2fac/mfac/primorial: n over 0..3000 (sampled in quick), around FAC_DSC_THRESHOLD and a ladder to 60k (2M thorough); the block-sieve region n = 1.18M..2.5M (9M thorough) for primorial, fac, 2fac and bin_uiui, judged by product trees and Legendre exponents; mfac with '
         'm in 1..n+1; bin_uiui: triangle n<=600 (sampled in quick), boundary points of each algorithm region in (n,k), k in {0,1,n-1,n,n/2}, n near '
         '2^32 and 2^64-1 with small k; bin_ui with negative and multi-limb n; fib/fib2/lucnum/lucnum2 n<=5000 and ladder; remove with f=2, small '
         'odd, multi-limb; primality: n<2^16 (sampled in quick), prime squares, Carmichael (Chernick), strong pseudoprimes to {2},{2,3},{2,3,5},'
@@ -59,6 +59,13 @@ def specs(rng, tier, wid, nw, env):
     fd = th.get('FAC_DSC_THRESHOLD', 898)
     ns = (sorted(set(range(0, 130)) | set(rng.sample(range(130, 3001), 150)) | set(gen.around([fd, 2 * fd, 20, 21, 25, 26, 33, 34, 65, 66], 0)) | set(gen.ladder(3000, 60000, 1.7)))
           if q else sorted(set(range(0, 3001)) | set(gen.ladder(3000, 300000, 1.3))))
+    # the block-wise prime sieve (primesieve.c) only re-sieves further blocks above n ~ 1.18 million: primorial, factorial, double factorial and the
+    # Goetgheluck binomial all take their primes from it there.  Judged exactly: primorial / n! / n!! by product trees, C(n,k) by Legendre's formula.
+    big = ([1179650, 1200000, 1600000, 2500001] if q else [1179650, 1200000, 1310000, 1600000, 2000001, 2500001, 4200000, 9000000])
+    for n in big:
+        for what in ('primorial', 'fac', '2fac', 'bin'):
+            k += 1
+            if k % nw == wid and not (what == 'fac' and n > (1700000 if q else 4500000)): yield ('sieve', what, n, rng.getrandbits(48))
     for n in reversed(ns):
         k += 1
         if k % nw == wid: yield ('fac', n, rng.getrandbits(48))
@@ -124,6 +131,22 @@ def build(spec, env):
                 if I(v[0]) != e: out.append(('%s:wrong' % fn, 'n=%d' % n))
             return out
         return Case(cmds, check, 3, ('fac', n if n < 3001 else 3001 + n.bit_length()), trivial=(n < 2))
+    if kind == 'sieve':
+        _, what, n, _s = spec
+        if what == 'bin': kk = r.choice([n // 2, n // 3, n // 16 + 5, n - n // 7]); cmd = 'c mpz_bin_uiui Z0 #%d #%d' % (n, kk)
+        else: kk = 0; n = n | 1 if what == '2fac' else n; cmd = 'c mpz_%s_ui Z0 #%d' % ({'primorial': 'primorial', 'fac': 'fac', '2fac': '2fac'}[what], n)
+        def check(rep, what=what, n=n, kk=kk):
+            v, _ = split_reply(rep[0]); got = I(v[0])
+            if what == 'primorial': e = models.prodtree(models.primes_upto(n))
+            elif what == 'fac': e = math.factorial(n)
+            elif what == '2fac': e = models.prodtree(range(n, 0, -2))
+            else: e = models.comb_by_primes(n, kk)
+            if got != e:
+                fn = {'primorial': 'mpz_primorial_ui', 'fac': 'mpz_fac_ui', '2fac': 'mpz_2fac_ui', 'bin': 'mpz_bin_uiui'}[what]
+                q_, r_ = divmod(got, e) if e and got >= e else (0, 1)
+                return [('%s:wrong:block-sieve' % fn, 'n=%d k=%d%s' % (n, kk, ' result = expected * %d' % q_ if r_ == 0 else ''))]
+        c = Case([cmd], check, 1, ('sieve', what, n.bit_length(), n >> 16)); c.timeout = 900
+        return c
     if kind == 'mfac':
         n = r.choice([r.randint(0, 150), r.randint(0, 3000), r.randint(0, 30000)]); m = r.choice([1, 2, 3, r.randint(1, max(1, n + 2)), n, n + 1, max(1, n // 2)])
         m = max(1, m)
